@@ -163,6 +163,10 @@ def spelling_variant(sh, spelling, alt):
     return out if out != spelling else None
 
 
+_COLD_SHORTHANDS = set(chords.chord_shorthand)
+_COLD_MEANINGS = set(chords.chord_shorthand_meaning)
+
+
 def run_alias(case):
     S = engine.S
     root, sh, spelling = case
@@ -201,6 +205,11 @@ def run_alias(case):
             S.problem("from_shorthand(%r)" % text, want, got, detail="same as %r" % (root + sh))
         else:
             S.count("alias_ok")
+    # using the library does not change its public tables: the shorthands that can be built are still those that have a meaning
+    if set(chords.chord_shorthand) != _COLD_SHORTHANDS or set(chords.chord_shorthand_meaning) != _COLD_MEANINGS:
+        S.problem("chords.chord_shorthand / chord_shorthand_meaning keys after alias spellings were used",
+                  "the keys the module was loaded with", {"added shorthands": sorted(set(chords.chord_shorthand) - _COLD_SHORTHANDS),
+                                                          "added meanings": sorted(set(chords.chord_shorthand_meaning) - _COLD_MEANINGS)})
     S.outcome((spelling, "|".join(base)))
 
 
